@@ -33,10 +33,11 @@ def _is_filemut(e):
     return is_call(e, TF + "::file_mut")
 
 
-def synced_summary(facts, R, C, need_last_seen=False):
-    """S(C): every Ok exit of C is on the Ok edges of flush then sync_all (same file), no write in between."""
+def synced_summary(facts, R, C, need_last_seen=False, exits=None):
+    """S(C): every Ok exit of C is on the Ok edges of flush then sync_all (same file), no write in between.
+    `exits`: judge these points instead (the commit site itself, when the filling steps are written out in the committing function)."""
     sym = Sym(C)
-    exits = ok_exits(C)
+    exits = ok_exits(C) if exits is None else exits
     ok_all = bool(exits)
     if not exits:
         R.bad("commit-order", C.path, "no-Ok-exit", "filling closure has no recognisable Ok exit", C.span)
@@ -125,6 +126,21 @@ def run(facts, R):
         okp = _strip_conv(d["path"])[0] == "arg" and _strip_conv(d["path"])[1] == 1
         R.check(okp, "who-may-publish", cr.path, "guard.path = path", "TempFile remembers %s as its path" % render(d["path"]), s.get("span"))
 
+    # ---------------- temp-name-injective: two pulls to different destinations must never spool into the same temp file (the
+    # second create truncates the first pull's data, and the first pull's remaining chunks land in what the second has already
+    # published).  temp_sibling(p) is p's *whole* file name plus a suffix, in p's directory: built from Path::file_name, never
+    # from a lossy component (with_extension / file_stem drop or replace the extension: `snap.bin` and `snap.meta` would collide)
+    ts_b = facts.body(VS + "temp_sibling")
+    ts_s = Sym(ts_b)
+    names_ = [t["callee"]["name"] for _, t in ts_b.calls()] + [t["callee"]["name"] for c_ in facts.children(ts_b.path) for _, t in c_.calls()]
+    lossy = [n_ for n_ in names_ if n_ in ("with_extension", "set_extension", "file_stem", "file_prefix", "extension", "with_added_extension", "add_extension", "trim_end_matches", "strip_suffix", "split", "rsplit", "truncate")]
+    whole = any(t["callee"]["name"] == "file_name" and ts_s.op(t["args"][0])[0] == "arg" for _, t in ts_b.calls())
+    placed = [t for _, t in ts_b.calls() if t["callee"]["name"] in ("with_file_name", "set_file_name", "join", "push") and "Path" in t["callee"]["path"]]
+    samedir = bool(placed) and all(("final_path" in render(ts_s.op(t["args"][0])) or "parent(" in render(ts_s.op(t["args"][0]))) for t in placed)
+    R.check(not lossy and whole and samedir, "who-may-publish", ts_b.path, "temp name = whole destination file name + suffix, same directory",
+            "temp_sibling derives the temp path through %s (whole file name used: %s, placed next to the destination: %s): distinct destinations can share one temp file"
+            % (lossy or names_, whole, samedir), ts_b.span, "file_name() + suffix, with_file_name")
+
     # ---------------- commit-order + provenance for each commit site ----------------------------------
     summaries = {}
     for b, i, t in commits:
@@ -151,6 +167,14 @@ def run(facts, R):
                 e = f["expr"]
                 if f["val"] == "Ok" and e[0] == "call" and e[1].startswith(b.path + "::{closure"):
                     filler = e[1]
+            if filler is None and getattr(b, "changed", False):
+                # the filling steps are written out in write_file itself (Result combinators instead of a closure): the commit
+                # site carries the closure's obligations - fill(..) returned Ok, the final chunk was seen, flush then sync_all Ok
+                fill_ok = ok_fact(fs, lambda e: e[0] == "call" and e[1].rsplit("::", 1)[-1] in ("call_once", "call", "call_mut") and render(e[2][0]).endswith("fill"))
+                R.check(fill_ok, "commit-order", b.path, "commit-on-Ok-of-fill",
+                        "commit is not guarded by the Ok result of fill(..); guards: %s" % texts(fs), t.get("span"), "guarded by fill(..) == Ok")
+                summaries[b.path + "#inline-fill"] = synced_summary(facts, R, b, need_last_seen=True, exits=[(i, 0, t)])
+                continue
             R.check(filler is not None, "commit-order", b.path, "commit-on-Ok-of-fill",
                     "commit is not guarded by the Ok result of the fill closure; guards: %s" % texts(fs), t.get("span"), "guarded by %s == Ok" % filler)
             if filler:
@@ -308,6 +332,8 @@ def run(facts, R):
                 "into_trailer returns Ok(%s) under %s" % (render(held), texts(fs)), s.get("span"), "Ok(self.hold) only when hold.len() >= trailer_len")
     # trailer pulls call into_trailer with `?` before the Ok exit (covered by Ok-exit guards: into_trailer's Ok fact)
     for cdef in sorted(summaries):
+        if "#" in cdef:
+            continue    # filling steps written out at the commit site: judged there
         C = facts.body(cdef)
         cs = Sym(C)
         its_calls = [(i, t) for i, t in C.calls() if callee_matches(t["callee"], VS + "TrailerHold::<W>::into_trailer")]
